@@ -2,8 +2,10 @@
    comparison, evaluated with vm_compute on the harness cases.
    Failure codes: 1 = the model's output differs from the implementation's;
    10 = stored-form round trip of a well-formed pin is not the value minus the documented losses;
-   11 = a decoded stored form is not re-encodable / not stable. *)
-From V Require Import Base.Common Base.C08_Str Model.C08_Codec.
+   11 = a decoded stored form is not re-encodable / not stable;
+   12 = query-form round trip of options loses more than empty metadata keys;
+   13 = options decoded from a query do not re-encode to themselves. *)
+From V Require Import Base.Common Base.C08_Str Model.C08_Codec Model.C08_Query.
 Open Scope Z_scope.
 
 (* ---- decidable equalities on the value types ---- *)
@@ -46,9 +48,25 @@ Definition model_cycle (p : pin) : obs_pin :=
   | Ok m => match pb_to_pin m with Ok q => ObsPin q | Err => ObsDecErr end
   end.
 
+Inductive obs_q := ObsQ (o : opts) | ObsQEncErr | ObsQDecErr.
+Definition obs_q_eqb (a b : obs_q) : bool :=
+  match a, b with
+  | ObsQ x, ObsQ y => opts_eqb x y
+  | ObsQEncErr, ObsQEncErr | ObsQDecErr, ObsQDecErr => true
+  | _, _ => false end.
+
+(* ToQuery, the wire, FromQuery into a fresh value *)
+Definition model_qcycle (orc : oracle) (o : opts) : obs_q :=
+  match to_query orc o with
+  | Err => ObsQEncErr
+  | Ok q => match from_query orc (0, 0%N) zero_opts q with Ok o' => ObsQ o' | Err => ObsQDecErr end
+  end.
+
 Inductive payload :=
   | CPb (p : pin) (o : obs_pin)
-  | CPbMsg (old : pin) (m : pbpin) (o o2 : obs_pin).
+  | CPbMsg (old : pin) (m : pbpin) (o o2 : obs_pin)
+  | CQuery (orc : oracle) (o : opts) (ob : obs_q)
+  | CQRaw (orc : oracle) (now : Z * N) (old : opts) (q : query) (ob ob2 : obs_q).
 
 Definition case := (N * payload)%type.
 
@@ -68,6 +86,16 @@ Definition spec_pbmsg (old : pin) (o o2 : obs_pin) : bool :=
       end
   end.
 
+Definition spec_q (orc : oracle) (o : opts) (ob : obs_q) : bool :=
+  if wf_q orc o then obs_q_eqb ob (ObsQ (lossy_q o)) else true.
+
+Definition spec_qraw (old : opts) (ob ob2 : obs_q) : bool :=
+  match ob with
+  | ObsQDecErr => true
+  | ObsQEncErr => false
+  | ObsQ o => if opts_eqb old zero_opts then obs_q_eqb ob2 (ObsQ o) else true
+  end.
+
 Definition check_case (c : case) : list (N * N * N) :=
   let '(id, pl) := c in
   match pl with
@@ -78,6 +106,13 @@ Definition check_case (c : case) : list (N * N * N) :=
       fail_if (negb (obs_pin_eqb (match pb_unmarshal old m with Ok q => ObsPin q | Err => ObsDecErr end) o
                      && match o with ObsPin q => obs_pin_eqb (model_cycle q) o2 | _ => true end)) id 1 0 ++
       fail_if (negb (spec_pbmsg old o o2)) id 11 0
+  | CQuery orc o ob =>
+      fail_if (negb (obs_q_eqb (model_qcycle orc o) ob)) id 1 0 ++
+      fail_if (negb (spec_q orc o ob)) id 12 0
+  | CQRaw orc now old q ob ob2 =>
+      fail_if (negb (obs_q_eqb (match from_query orc now old q with Ok o => ObsQ o | Err => ObsQDecErr end) ob
+                     && match ob with ObsQ o => obs_q_eqb (model_qcycle orc o) ob2 | _ => true end)) id 1 0 ++
+      fail_if (negb (spec_qraw old ob ob2)) id 13 0
   end.
 
 Definition failing (cs : list case) : list (N * N * N) := flat_map check_case cs.
